@@ -29,6 +29,7 @@ PROPS = {
     "C14": "vp.harness.c14_evolve",
     "C16": "vp.harness.c16_symbolic",
     "C17": "vp.harness.c17_errloc",
+    "C18": "vp.harness.c18_values",
     "C19": "vp.harness.c19_closure",
 }
 
